@@ -3,8 +3,8 @@ Require Import Value Bytes Aes Modes KeyWrap Crc CryptoProofs FlashEncModel Flas
 Import ListNotations.
 Local Open Scope Z_scope.
 
-(* C13, IEE (AES-XTS 256/512 and AES-CTR with address binding 128/256), outside the recorded findings (no Bypass blob,
-   CTR counter word does not pass 2^32): for every cipher pair with the laws in ib_cipher_ok (XTS: D o E = id on 16-byte
+(* C13, IEE (AES-XTS 256/512 and AES-CTR with address binding 128/256, every initial counter: the 32-bit counter word
+   wraps on both sides), outside the recorded finding (no Bypass blob): for every cipher pair with the laws in ib_cipher_ok (XTS: D o E = id on 16-byte
    blocks under the data key; CTR: only 16-byte outputs), well-formed pairwise disjoint 4 KiB-aligned blobs, every image
    of bytes and every 4 KiB-aligned data address, Iee.encrypt_image succeeds, the hardware model (per 4 KiB sector: tweak
    = sector number / counter = nonce word + address >> 4, keys word-reversed) holding the blobs' contexts gives the image
@@ -12,7 +12,6 @@ Local Open Scope Z_scope.
 Theorem iee_decrypts_except_known :
   forall (E D : cipher) (blobs : list iblob) (img : list N) (base : Z),
   Forall ib_wf blobs -> iblobs_disjoint blobs -> Forall (ib_cipher_ok E D) blobs ->
-  Forall (fun b => ib_no_ctr_overflow b (base + zlen img)) blobs ->
   wf_bytes img -> 0 <= base -> base mod 4096 = 0 ->
   exists out, iee_encrypt_image E blobs img base = Ok out /\
               (length img <= length out)%nat /\
